@@ -6,35 +6,37 @@
 (*              (token of its params / user attrs / intermediate values)                                *)
 (*   beat     : the harness changes the heartbeat of trial n (a worker dies / lives)                     *)
 (*   fail     : a FAIL request of worker w on trial n answered True (inside the sweep)                   *)
-(*   callback : the failed-trial callback of worker w was invoked for trial n                           *)
+(*   callback : the failed-trial callback of worker w was invoked for trial n; callback_done: it returned *)
 (*   final    : all trials as read back: n, state, hist, failed (failed_trial attr or -1), pk            *)
 (* cfg.max_retry (-1 = unlimited), cfg.inherit (0/1) travel with the trace.                             *)
 EXTENDS Integers, Sequences, FiniteSets, TraceBase
 
-VARIABLES known, failedBy, called
-vars == <<tix, l, known, failedBy, called>>
+VARIABLES known, failedBy, called, done
+vars == <<tix, l, known, failedBy, called, done>>
 Is(e) == Consume /\ Ev.e = e
 Upd(f, k, v) == [x \in DOMAIN f \cup {k} |-> IF x = k THEN v ELSE f[x]]
 MaxRetry == Trace.cfg.max_retry
 
-Init == TraceInitBase /\ known = <<>> /\ failedBy = <<>> /\ called = <<>>
+Init == TraceInitBase /\ known = <<>> /\ failedBy = <<>> /\ called = <<>> /\ done = {}
 
 TrialEv == /\ Is("trial")
            /\ known' = Upd(known, Ev.n, [state |-> Ev.state, beat |-> Ev.beat, hist |-> Ev.hist, pk |-> Ev.pk, pkiv |-> Ev.pkiv])
-           /\ UNCHANGED <<failedBy, called>>
+           /\ UNCHANGED <<failedBy, called, done>>
 BeatEv == /\ Is("beat") /\ Ev.n \in DOMAIN known
-          /\ known' = [known EXCEPT ![Ev.n].beat = Ev.beat, ![Ev.n].state = Ev.state] /\ UNCHANGED <<failedBy, called>>
+          /\ known' = [known EXCEPT ![Ev.n].beat = Ev.beat, ![Ev.n].state = Ev.state] /\ UNCHANGED <<failedBy, called, done>>
 
 Fail == /\ Is("fail") /\ Ev.n \in DOMAIN known
         /\ known[Ev.n].state = "RUNNING" /\ known[Ev.n].beat = "stale"      \* only dead RUNNING trials are touched
         /\ Ev.n \notin DOMAIN failedBy                                       \* failed by exactly one of the workers
         /\ failedBy' = Upd(failedBy, Ev.n, Ev.w)
-        /\ known' = [known EXCEPT ![Ev.n].state = "FAIL"] /\ UNCHANGED called
+        /\ known' = [known EXCEPT ![Ev.n].state = "FAIL"] /\ UNCHANGED <<called, done>>
 
 Callback == /\ Is("callback")
             /\ Ev.n \in DOMAIN failedBy /\ failedBy[Ev.n] = Ev.w               \* only the worker that failed it
             /\ Ev.n \notin DOMAIN called                                       \* at most once
-            /\ called' = Upd(called, Ev.n, TRUE) /\ UNCHANGED <<known, failedBy>>
+            /\ called' = Upd(called, Ev.n, TRUE) /\ UNCHANGED <<known, failedBy, done>>
+\* the callback returned (a worker that dies inside its callback may or may not have queued the retry)
+CallbackDone == /\ Is("callback_done") /\ Ev.n \in DOMAIN called /\ done' = done \cup {Ev.n} /\ UNCHANGED <<known, failedBy, called>>
 
 \* final read-back: every retry is justified by exactly one callback, carries the original's parameters, user attributes
 \* (and intermediate values if inherited) and a correct history; chains are bounded; nothing else changed
@@ -54,12 +56,12 @@ FinalOK(fin) ==
        /\ (t.n \in DOMAIN known /\ t.n \notin DOMAIN failedBy /\ known[t.n].state \in {"COMPLETE", "RUNNING"})
              => t.state = known[t.n].state                                     \* untouched
   /\ \A n \in DOMAIN called : Cardinality(RetriesOf(fin, n)) <= 1              \* at most one retry per failure
-  /\ \A n \in DOMAIN called :
+  /\ \A n \in done :
         LET h == (CHOOSE j \in 1..Len(fin) : fin[j].n = n) IN
         (MaxRetry = -1 \/ Len(fin[h].hist) + 1 <= MaxRetry) => Cardinality(RetriesOf(fin, n)) = 1
 
-Final == Is("final") /\ FinalOK(Ev.trials) /\ UNCHANGED <<known, failedBy, called>>
+Final == Is("final") /\ FinalOK(Ev.trials) /\ UNCHANGED <<known, failedBy, called, done>>
 
-Next == TrialEv \/ BeatEv \/ Fail \/ Callback \/ Final
+Next == TrialEv \/ BeatEv \/ Fail \/ Callback \/ CallbackDone \/ Final
 Spec == Init /\ [][Next]_vars
 =================================================================================
